@@ -41,7 +41,7 @@ L1_NBR = ["RModel.BSet.nextValue_some", "RModel.BSet.nextValue_none", "RModel.BS
 L1_XFORM = ["RModel.BSet.mem_shift", "RModel.BSet.canon_shift", "RModel.BSet.mem_flipRange", "RModel.BSet.canon_xor"]
 
 PROPS = {
-    "C01": {"suites": [("alg", 1.0), ("kern", 0.3), ("kernspecial", 1.0), ("popcnt", 1.0)], "theorems": L1_ALGEBRA + F_THRESH,
+    "C01": {"suites": [("alg", 1.0), ("kern", 0.3), ("kernspecial", 1.0), ("kernthresh", 0.5), ("popcnt", 1.0)], "theorems": L1_ALGEBRA + F_THRESH,
             "modules": DEFAULT_MODULES + [FACTS],
             "owns": {"and", "or", "xor", "andnot", "iand", "ior", "ixor", "iandnot", "andcard", "orcard", "isect", "eq", "dig",
                      "kern", "popcnt"}},
@@ -56,7 +56,14 @@ PROPS = {
             "modules": DEFAULT_MODULES + [FACTS, "RProofs.Properties.C05"],
             "owns": {"ser", "rd", "wrfail", "trunc", "wf", "dig", "add", "or"}},
     "C06": {"suites": [("spec", 1.0)], "theorems": ["RModel.BSet.canon_ext"] + F_SERIAL, "modules": DEFAULT_MODULES + [FACTS], "owns": {"spec", "ser", "card", "toarr"}},
-    "C09": {"suites": [("hist", 1.0), ("alg", 0.7), ("xform", 0.7), ("ser", 0.5), ("kernwf", 1.0)],
+    "C07": {"suites": [("alias", 1.0)], "modules": ["RModel"],
+            "theorems": ["RModel.Impl.safe_nil", "RModel.Impl.safe_iff", "RModel.Impl.safe_unflagged_not_foreign",
+                         "RModel.Impl.safe_unflagged_private"],
+            "owns": None},
+    "C08": {"suites": [("zerocopy", 1.0)], "modules": ["RModel"],
+            "theorems": ["RModel.Impl.safe_iff", "RModel.Impl.safe_unflagged_not_foreign"],
+            "owns": None},
+    "C09": {"suites": [("hist", 1.0), ("alg", 0.7), ("xform", 0.7), ("ser", 0.5), ("kernwf", 1.0), ("kernthresh", 1.0)],
             "theorems": ["RModel.Impl.wf_implies_validate", "RModel.Impl.validate_implies_wf_of_decoded", "RModel.BSet.canon_ext"] + F_THRESH,
             "modules": DEFAULT_MODULES + [FACTS, "RProofs.Properties.C09"],
             "owns": {"wf", "kernwf"}},
@@ -69,8 +76,9 @@ PROPS = {
             "theorems": ["RModel.Impl.readme_bound", "RModel.Impl.bound_function", "RModel.BSet.canon_ext"] + F_SERIAL,
             "modules": DEFAULT_MODULES + [FACTS, "RProofs.Properties.C14"], "owns": {"size"}},
     "C15": {"suites": [("nbr", 1.0), ("kernq", 0.3)], "theorems": L1_NBR, "owns": {"nv", "pv", "nav", "pav", "kern"}},
-    "C16": {"suites": [("xform", 1.0), ("dense", 1.0)], "theorems": L1_XFORM,
-            "owns": {"off", "off32", "sflip", "eq", "dense", "fromdense", "frombitset", "densechk", "dig"}},
+    "C16": {"suites": [("xform", 1.0), ("dense", 1.0), ("zc_dense", 0.5)], "theorems": L1_XFORM,
+            "owns": {"off", "off32", "sflip", "eq", "dense", "fromdense", "frombitset", "densechk", "dig",
+                     "zdense", "zfromdense", "safe", "digall", "zdetach", "zsame"}},
     "C17": {"suites": [("r64", 1.0)], "theorems": L1_ALGEBRA + L1_MUT[:5] + L1_QUERY[:9] + L1_NBR[:4] +
             ["RModel.Facts.r64Highbits_spec", "RModel.Facts.r64Lowbits_spec"],
             "modules": DEFAULT_MODULES + ["RProofs.Facts.Bits"], "owns": None},
